@@ -60,7 +60,24 @@ def spell(k, wd, twd_rel, fdir, fname):
 import collections
 import types
 
+class FsPath:
+    """A path object that is not a pathlib path (like os.DirEntry): only __fspath__ says what it denotes."""
+
+    def __init__(self, p):
+        self._p = p
+
+    def __fspath__(self):
+        return self._p
+
+    def __repr__(self):
+        return "<FsPath object>"
+
+    __str__ = __repr__
+
+
 SHAPES = {
+    "fspath": lambda ps: [FsPath(p) for p in ps],
+    "pathlib": lambda ps: [__import__("pathlib").PurePosixPath(p) for p in ps],
     "userdict": lambda ps: collections.UserDict({f"k{i}": p for i, p in enumerate(ps)}),
     "mappingproxy": lambda ps: types.MappingProxyType({f"k{i}": [p] for i, p in enumerate(ps)}),
     "str": lambda ps: ps[0] if len(ps) == 1 else list(ps),
